@@ -237,6 +237,9 @@ class EdgeLandmark(BaseEdge):
             Whether the two edges are equal
 
         """
+        if not type(self) is type(other):  # noqa
+            return False
+
         if not type(self.offset) is type(other.offset):  # noqa
             return False
 
